@@ -764,16 +764,15 @@ class _LambdaRef:
         return self.interp.eval(self.fi, self.node.body, local)
 
 
-_scope_cache: dict[str, FunctionInfo] = {}
-
-
 def _module_scope(m: Module) -> FunctionInfo:
-    """A pseudo FunctionInfo standing for module scope (for evaluating constants / defaults)."""
-    fi = _scope_cache.get(m.name)
+    """A pseudo FunctionInfo standing for module scope (for evaluating constants / defaults).
+    Stored on the Module object itself: a cache keyed by module *name* would leak a previous tree's
+    module into the analysis of the next one when one process analyses several roots (selftest workers)."""
+    fi = m.__dict__.get("_g5_scope")
     if fi is None:
         node = ast.FunctionDef(name="<module>", args=ast.arguments(posonlyargs=[], args=[], kwonlyargs=[], kw_defaults=[], defaults=[]), body=[], decorator_list=[], lineno=0, col_offset=0)
         fi = FunctionInfo(m, "<module>", node)
-        _scope_cache[m.name] = fi
+        m.__dict__["_g5_scope"] = fi
     return fi
 
 
